@@ -94,10 +94,10 @@ class FactEngine(object):
                                 return False
                 elif k == 'CXXThisExpr' and not const_method:
                     return False
-                elif k == 'UnaryOperator' and y.get('opcode') == '*' and not ref:
+                elif k == 'UnaryOperator' and y.get('opcode') == '*' and not ref and not qtype(y).startswith('const '):
                     return False
-                elif k == 'ArraySubscriptExpr' and not ref:
-                    return False
+                elif k == 'ArraySubscriptExpr' and not ref and not qtype(y).startswith('const '):
+                    return False        # (a read through a pointer to const denotes the same value throughout)
             return True
         subst = {}
         for i, d in decls.items():
